@@ -156,4 +156,43 @@ def random_instance(rng, fedjax, leaves=2, max_clients=5, rounds=None, dyadic=Tr
   inst = {'data': data, 'stream': streams, 'init': [R(rng.randint(-2, 2)) for _ in range(leaves)], 'copt': copt, 'sopt': sopt,
           'mu': R(0), 'rounds': rounds, 'cohorts': cohorts}
   exact = dyadic and all(is_pow2(len(b)) for s in streams for b in s)
+  if not within_island(dict(inst, mu=R(1))):   # also room for a proximal weight
+    return None
   return {'inst': inst, 'h': h, 'exact': exact}
+
+
+def within_island(inst, bound=1 << 13):
+  """Instance FILTER (not an oracle): simulates the rounds with Fractions and checks that every intermediate value keeps
+  numerator and denominator below `bound`, so that TLC's 32-bit rationals cannot overflow."""
+  F = fractions.Fraction
+  big = [False]
+
+  def chk(x):
+    if abs(x.numerator) >= bound or x.denominator >= bound:
+      big[0] = True
+    return x
+
+  def opt_apply(opt, g, s, p):
+    lr, beta = frac(opt['lr']), frac(opt['beta'])
+    if opt['kind'] == 'sgd':
+      return [chk(pi - lr * gi) for pi, gi in zip(p, g)], s
+    t = [chk(gi + beta * si) for gi, si in zip(g, s)]
+    return [chk(pi - lr * ti) for pi, ti in zip(p, t)], t
+
+  mu = frac(inst['mu'])
+  params = [frac(x) for x in inst['init']]
+  sstate = [F(0)] * len(params)
+  L = len(params)
+  for cohort in inst['cohorts']:
+    acc, nsum = [F(0)] * L, 0
+    for c in cohort:
+      w, s = list(params), [F(0)] * L
+      for batch in inst['stream'][c - 1]:
+        g = [chk(w[l] - F(sum(inst['data'][c - 1][i - 1][l] for i in batch), len(batch)) + mu * (w[l] - params[l])) for l in range(L)]
+        w, s = opt_apply(inst['copt'], g, s, w)
+      n = len(inst['data'][c - 1])
+      acc = [chk(a + n * (p - x)) for a, p, x in zip(acc, params, w)]
+      nsum += n
+    mean = [chk(a / nsum) for a in acc] if nsum else [F(0)] * L
+    params, sstate = opt_apply(inst['sopt'], mean, sstate, params)
+  return not big[0]
